@@ -188,6 +188,41 @@ func run(q req) resp {
 			} else {
 				ctxs = append(ctxs, c)
 			}
+		case 10:
+			// a request on the wire: the real WriteRequestHeader of context i, then the real
+			// ReadRequestHeader of protocol object p
+			p := protos[o.P]
+			p.mem.Reset()
+			wmem := thrift.NewTMemoryBuffer()
+			if err := pf.GetProtocol(wmem).WriteRequestHeader(ctxs[o.I]); err != nil {
+				d.Err = err.Error()
+				break
+			}
+			p.mem.Write(wmem.Bytes())
+			p.mem.Write([]byte("payload"))
+			c, err := p.p.ReadRequestHeader()
+			if err != nil {
+				d.Err = err.Error()
+			} else {
+				ctxs = append(ctxs, c)
+			}
+			if rest := p.mem.Bytes(); string(rest) != "payload" {
+				d.Err = "payload after the request header was disturbed"
+			}
+		case 11:
+			// the reply: WriteResponseHeader of context j (= o.I), ReadResponseHeader into context o.U
+			wmem := thrift.NewTMemoryBuffer()
+			if err := pf.GetProtocol(wmem).WriteResponseHeader(ctxs[o.I]); err != nil {
+				d.Err = err.Error()
+				break
+			}
+			wmem.Write([]byte("payload"))
+			if err := pf.GetProtocol(wmem).ReadResponseHeader(ctxs[o.U]); err != nil {
+				d.Err = err.Error()
+			}
+			if string(wmem.Bytes()) != "payload" {
+				d.Err = "payload after the response header was disturbed"
+			}
 		case 9:
 			mem := thrift.NewTMemoryBuffer()
 			mem.Write(wire(o.Hdrs))
